@@ -3,10 +3,10 @@ CONSTANTS
   Senders = {"o1", "a1", "b1"}
   EchoSenders = {"o1"}
   MsgKeys = {"o1", "o2", "a1", "a2", "b1"}
-  MaxDec = 2
-  ManualMax = 2
-  Combos <- CombosQ4
-  MaxHist = 3
+  MaxDec = 1
+  ManualMax = 1
+  Combos <- CombosAll
+  MaxHist = 6
 INVARIANTS TypeOK NoHeldFromAuthenticated HeldInScope OneDirectionPerSender ForeignPairsUntouched
 PROPERTIES StepOK
 VIEW View
